@@ -139,8 +139,8 @@ class PathNode(ConfigList):
     @namespace('ayns')
     @property
     def tag(self):
-        if not self.ref_point:
-            return '!path'
+        # keep the (possibly empty) reference point in the tag: the dumper appends ":<metadata>",
+        # which "!path::<metadata>" keeps apart from "!path:<ref_point>"
         return '!path:' + self.ref_point
 
     @namespace('ayns')
